@@ -407,3 +407,118 @@ Lemma solidity_negative_ok :
   sol_decode reg_empty (Add [K (h4 - 1); V 0]) = Ok ((4, 1, 256), [KW [K 0; K (2 ^ 256 - 1); V 0]]) /\
   sol_kden env1 [KW [K 0; K (2 ^ 256 - 1); V 0]] = 0.
 Proof. split; vm_compute; reflexivity. Qed.
+
+(* ================================================================== hash range vs array bound *)
+(* the range sha3_data enforces on concrete hashes / assumes for symbolic ones leaves room for
+   every offset below the dynamic-array bound: hash + offset neither wraps nor is 0 *)
+Lemma pow256_lit : 2 ^ 256 = 115792089237316195423570985008687907853269984665640564039457584007913129639936.
+Proof. reflexivity. Qed.
+Lemma pow64_lit : 2 ^ 64 = 18446744073709551616.
+Proof. reflexivity. Qed.
+
+Lemma range_no_wrap : forall h off,
+  0 <= h -> sha3_hash_out_of_range h = false -> 0 <= off < dyn_array_max_offset ->
+  0 < h + off < 2 ^ 256.
+Proof.
+  intros h off Hh Hr Ho. unfold sha3_hash_out_of_range, dyn_array_max_offset in *.
+  rewrite ?pow256_lit, ?pow64_lit in *. lia.
+Qed.
+
+Lemma sym_range_no_wrap : forall h off,
+  0 < h <= sha3_sym_upper -> 0 <= off < dyn_array_max_offset -> 0 < h + off < 2 ^ 256.
+Proof.
+  intros h off Hh Ho. unfold sha3_sym_upper, dyn_array_max_offset in *.
+  rewrite ?pow256_lit, ?pow64_lit in *. lia.
+Qed.
+
+(* ================================================================== mixed key widths alias *)
+(* mapping(bytes => mapping(bytes => uint)) m at slot 1:  m[hex"ab"][hex"00cd"]  and
+   m[hex"ab00"][hex"cd"] are different EVM slots, but decode to the same chunk
+   (1, 4 keys, 536 bits) with the same concatenated key *)
+Definition env_mixed : env := fun i => match i with 0%nat => 171 | 1%nat => 205 | 2%nat => 43776 | _ => 205 end.
+Definition mixed1 : loc := ShaN 16 (NKv 1) (ShaN 8 (NKv 0) (K 1)).
+Definition mixed2 : loc := ShaN 8 (NKv 3) (ShaN 16 (NKv 2) (K 1)).
+Lemma mixed_width_witness :
+  exists k1 k2,
+    sol_decode reg_empty mixed1 = Ok ((1, 4, 536), k1) /\
+    sol_decode reg_empty mixed2 = Ok ((1, 4, 536), k2) /\
+    sol_kden env_mixed k1 = sol_kden env_mixed k2 /\
+    eval Hkeccak env_mixed mixed1 <> eval Hkeccak env_mixed mixed2.
+Proof.
+  eexists. eexists. split; [vm_compute; reflexivity|]. split; [vm_compute; reflexivity|].
+  split; [vm_compute; reflexivity|]. vm_compute. discriminate.
+Qed.
+
+(* ================================================================== a concrete faithful family *)
+(* scalar slot 0, mapping element m[v0] (m at slot 1) with a struct offset, array element
+   a[v1] (a at slot 2) spelled through the precomputed constant keccak(2), and the same
+   array element spelled through the run-time hash *)
+Definition h2 : Z := 29102676481673041902632991033461445430619272659676223336789171408008386403022.
+Definition fam_ex : list loc :=
+  [K 0; Add [Sha512 (V 0) (K 1); K 1]; Add [K h2; V 1]; Add [V 1; Sha256 (K 2)]].
+Definition orc_ex (a b : list kt) : tri := if sol_kden env1 a =? sol_kden env1 b then MustEq else MustNeq.
+Definition adm_ex (e : env) : Prop := e = env1.
+
+Lemma orc_ex_eq : forall a b, orc_ex a b = MustEq -> forall e, adm_ex e -> sol_kden e a = sol_kden e b.
+Proof.
+  intros a b O e ->. unfold orc_ex in O.
+  destruct (sol_kden env1 a =? sol_kden env1 b) eqn:E; [apply Z.eqb_eq in E; exact E | discriminate].
+Qed.
+Lemma orc_ex_neq : forall a b, orc_ex a b = MustNeq -> forall e, adm_ex e -> sol_kden e a <> sol_kden e b.
+Proof.
+  intros a b O e ->. unfold orc_ex in O.
+  destruct (sol_kden env1 a =? sol_kden env1 b) eqn:E; [discriminate | apply Z.eqb_neq in E; exact E].
+Qed.
+
+Ltac faithful_pair :=
+  eexists; eexists; split; [vm_compute; reflexivity|]; split; [vm_compute; reflexivity|];
+  vm_compute; split; (let E := fresh "E" in intro E; first [reflexivity | discriminate E]).
+
+Lemma fam_ex_faithful : faithful_on (list kt) sol_kden Hkeccak (sol_decode reg_empty) env1 fam_ex.
+Proof.
+  intros l l' Hl Hl'. unfold fam_ex in Hl, Hl'. cbn [In] in Hl, Hl'.
+  destruct Hl as [<-|[<-|[<-|[<-|[]]]]]; destruct Hl' as [<-|[<-|[<-|[<-|[]]]]]; faithful_pair.
+Qed.
+
+Lemma seq_example :
+  model_run (list kt) Z sol_kden evalZ orc_ex init0 (sol_decode reg_empty) env1 (st_empty (list kt) Z)
+    [OStore (Add [K h2; V 1]) 7; OStore (K 0) 8; OLoad (Add [V 1; Sha256 (K 2)]);
+     OStore (Add [Sha512 (V 0) (K 1); K 1]) 9; OLoad (K 0); OLoad (Add [K h2; V 1]); OLoad (Add [Sha512 (V 0) (K 1); K 1])]
+  = [7; 8; 7; 9].
+Proof.
+  rewrite (seq_from_empty (list kt) Z sol_kden evalZ orc_ex init0 adm_ex orc_ex_eq orc_ex_neq Hkeccak
+             (sol_decode reg_empty) env1 fam_ex).
+  - vm_compute. reflexivity.
+  - reflexivity.
+  - exact fam_ex_faithful.
+  - intros o Ho. cbn [In] in Ho. unfold fam_ex.
+    repeat (destruct Ho as [<-|Ho]; [cbn [op_loc In]; tauto|]). destruct Ho.
+Qed.
+
+(* ================================================================== narrow constant keys *)
+(* mapping(bytes => uint) m at slot 5: m[hex"0000"] computed concretely is the constant
+   keccak(0x0000 . 5); its registered term f_sha3_272(const) is not decoded (no Concat left),
+   int_of substitutes the hash back, and the location becomes a scalar slot; the same element
+   reached with a symbolic key (v1 = 0) is (5, [k16; 0]) *)
+Definition narrow_pre : Z := 5.   (* 0x0000 . uint256(5) *)
+Definition narrow_entry : rentry := {| r_hash := Hkeccak 272 narrow_pre; r_bits := 272; r_pre := narrow_pre |}.
+Definition env0 : env := fun _ => 0.
+Lemma narrow_constant_witness :
+  exists R, register reg_empty narrow_entry = Ok R /\
+    eval Hkeccak env0 (K (Hkeccak 272 narrow_pre)) = eval Hkeccak env0 (ShaN 16 (NKv 1) (K 5)) /\
+    sol_decode R (K (Hkeccak 272 narrow_pre)) = Ok ((Hkeccak 272 narrow_pre, 0, 0), []) /\
+    sol_decode R (ShaN 16 (NKv 1) (K 5)) = Ok ((5, 2, 272), [KN 16 (NKv 1); KW [K 0]]).
+Proof.
+  destruct (register reg_empty narrow_entry) as [R|c] eqn:E; [|vm_compute in E; discriminate].
+  exists R. split; [reflexivity|]. vm_compute in E. inversion E; subst.
+  repeat split; vm_compute; reflexivity.
+Qed.
+
+(* ================================================================== generic layout: hash-valued keys *)
+(* mapping(bytes32 => uint[]) m at slot 0: the length slot of m[keccak(2)] and element 0 of
+   m[2] are different EVM slots with the same generic encoding (1026 bits, 2 * 2^770) *)
+Lemma generic_hash_key_witness :
+  eval Hkeccak env0 (Sha512 (Sha256 (K 2)) (K 0)) <> eval Hkeccak env0 (Sha256 (Sha512 (K 2) (K 0))) /\
+  decode_gen precomputed reg_empty env0 FUEL (Sha512 (Sha256 (K 2)) (K 0)) = Ok (1026, 2 * 2 ^ 770) /\
+  decode_gen precomputed reg_empty env0 FUEL (Sha256 (Sha512 (K 2) (K 0))) = Ok (1026, 2 * 2 ^ 770).
+Proof. split; [vm_compute; discriminate|]. split; vm_compute; reflexivity. Qed.
